@@ -307,3 +307,41 @@ func VerifHarness_FlatDeep() {
 	verifAssert(len(inner.callstack) == 1, "C19: exactly one top-level frame remains")
 	verifFlatInvariants(&inner.callstack[0], frames)
 }
+
+func init() {
+	verifHarnesses["VerifHarness_ClearFailedLogs"] = VerifHarness_ClearFailedLogs
+}
+
+// VerifHarness_ClearFailedLogs: the with-log call tracer's pruning on a symbolic frame tree
+// (a chain root -> a -> b -> c with a sibling of b): a frame's logs survive exactly when
+// neither the frame nor any of its ancestors failed (the reference tracer's rule).
+func VerifHarness_ClearFailedLogs() {
+	mk := func(name string) callFrame {
+		f := callFrame{Type: vm.CALL, Logs: []callLog{{Address: common.Address{1}}}}
+		if verifBool(name + ".failed") {
+			f.Error = "execution reverted"
+		}
+		return f
+	}
+	c := mk("c")
+	b := mk("b")
+	b.Calls = []callFrame{c}
+	sib := mk("sib")
+	a := mk("a")
+	a.Calls = []callFrame{b, sib}
+	root := mk("root")
+	root.Calls = []callFrame{a}
+	fr, fa, fb, fc, fs := root.failed(), a.failed(), b.failed(), c.failed(), sib.failed()
+	clearFailedLogs(&root, false)
+	verifReach("pruned")
+	keep := func(f *callFrame) bool { return len(f.Logs) == 1 }
+	ra := &root.Calls[0]
+	rb := &ra.Calls[0]
+	rs := &ra.Calls[1]
+	rc := &rb.Calls[0]
+	verifAssert(keep(&root) == !fr, "C18: the top frame keeps its logs iff it did not fail")
+	verifAssert(keep(ra) == (!fr && !fa), "C18: a frame keeps its logs iff neither it nor an ancestor failed (depth 1)")
+	verifAssert(keep(rb) == (!fr && !fa && !fb), "C18: a frame keeps its logs iff neither it nor an ancestor failed (depth 2)")
+	verifAssert(keep(rs) == (!fr && !fa && !fs), "C18: a frame keeps its logs iff neither it nor an ancestor failed (sibling)")
+	verifAssert(keep(rc) == (!fr && !fa && !fb && !fc), "C18: a frame keeps its logs iff neither it nor an ancestor failed (depth 3)")
+}
